@@ -159,12 +159,33 @@ def check_one(ctx, case) -> None:
     loaded = case.get("loaded") or [True] * n
     spec = mk_spec(n, act, inputs_of, case.get("enabled"), case.get("weights"))
     eng = build.mk_engine(spec)
+    via = case.get("via") or "constructor"
+    if via != "constructor" and act["cls"] not in ("General", "Proportional"):
+        # the same configuration reached the way an importer / a program does: default object, then configure() or
+        # attribute assignment
+        a = fl.settings.factory_manager.activation.construct(act["cls"])
+        if via == "configure":
+            params = {"First": lambda: f"{act['rules']} {act['threshold']!r}", "Last": lambda: f"{act['rules']} {act['threshold']!r}",
+                      "Highest": lambda: f"{act['rules']}", "Lowest": lambda: f"{act['rules']}",
+                      "Threshold": lambda: f"{act['comparator']} {act['threshold']!r}"}[act["cls"]]()
+            a.configure(params)
+        else:
+            if "rules" in act:
+                a.rules = int(act["rules"])
+            if "threshold" in act:
+                a.threshold = float(act["threshold"])
+            if "comparator" in act:
+                a.comparator = fl.Threshold.Comparator(act["comparator"])
+        eng.rule_blocks[0].activation = a
+        ctx.cls("configured_via:" + via)
     for r, ld in zip(eng.rule_blocks[0].rules, loaded):
         if not ld:
             r.unload()
     o = compare(ctx, case, eng, spec, vec, loaded)
     ctx.ev()
     ctx.cls("method:" + act["cls"])
+    if any(math.isnan(float(x)) for x in vec):
+        ctx.cls("vector_with_nan_degree")
     if o and nontrivial(act, o[1], o[3]):
         ctx.nt([act, vec, inputs_of, case.get("enabled"), loaded, case.get("weights")],
                {"activation": act, "input_values": vec, "rule_inputs": inputs_of, "enabled": case.get("enabled"),
@@ -235,13 +256,16 @@ def one_cases(draw):
     vec = [draw(degree()) for _ in range(ni)]
     if "threshold" in act and draw(st.booleans()) and vec:
         act["threshold"] = draw(st.sampled_from(vec))
+    if draw(st.integers(0, 4)) == 0:  # an input still NaN (as after restart()): its rules have NaN degrees
+        for k in draw(st.lists(st.integers(0, ni - 1), min_size=1, max_size=2)):
+            vec[k] = math.nan
     enabled = [draw(st.sampled_from([True] * 5 + [False])) for _ in range(n)]
     loaded = [draw(st.sampled_from([True] * 7 + [False])) for _ in range(n)]
     weights = None
     if draw(st.integers(0, 4)) == 0:
         weights = [draw(st.sampled_from([None, 0.5, 0.25, 0.0, 1.0, 0.75])) for _ in range(n)]
     return {"n": n, "act": act, "vec": vec, "inputs_of": inputs_of, "enabled": enabled, "loaded": loaded,
-            "weights": weights, "free": True}
+            "weights": weights, "free": True, "via": draw(st.sampled_from(["constructor", "constructor", "configure", "attribute"]))}
 
 
 @st.composite
